@@ -185,6 +185,22 @@ Proof.
 Qed.
 Print Assumptions C19_counters_outermost_first.
 
+(* "list items increment list-item implicitly" also holds for ::before / ::after
+   with display: list-item: the ::marker of such a pseudo-element and its
+   content are generated from the instances as they are AFTER the
+   pseudo-element's own counter-reset / -set / -increment (s_update: implicit
+   list-item increment included), the pseudo-element acting like a child of
+   its element (its properties act in the frame of the element's children) *)
+Theorem C19_pseudo_list_item_marker : forall c mkout st fs props sid content st' out,
+  R st fs -> frames_ok fs -> fs <> [] -> cp_list_item props = true ->
+  pseudo_to_box c mkout st (Some (Pseudo props (MkNormal sid) content)) = Ok (st', out) ->
+  exists m s, out = [OMarker m; mkout s]
+              /\ RenderMarker c sid (innermost (s_update fs props) s_list_item) = Ok m
+              /\ s_content c (s_update fs props) content = Ok s
+              /\ R st' (s_update fs props).
+Proof. exact pseudo_list_item_marker. Qed.
+Print Assumptions C19_pseudo_list_item_marker.
+
 (* ------------------------------------------------------------------ the hypotheses are inhabited *)
 
 Definition ex_decimal : descr :=
@@ -222,7 +238,7 @@ Proof. vm_compute. auto. Qed.
    ::before { content: counters(c, ".") } gives 1, 1.1, 1.2, 1.3, 1.0, 1.1, 2 *)
 Definition ex_c : str := [99]%N.
 Definition ex_before : option pseudo :=
-  Some (Pseudo (CP [] [] true [] false) [CCounters ex_c [46]%N (SidName s_decimal)]).
+  Some (Pseudo (CP [] [] true [] false) MkNone [CCounters ex_c [46]%N (SidName s_decimal)]).
 Definition ex_div (reset incr : bool) (children : list elem) : elem :=
   Elem false (CP (if reset then [CI ex_c 0] else []) [] false (if incr then [CI ex_c 1] else []) false)
        MkNone ex_before None children.
@@ -238,3 +254,29 @@ Example C19_ex_nesting :
         OBefore [49;46;48]; OBefore [49;46;49]; OBefore [50]]%N
   /\ build ex_table ex_doc = s_build ex_table ex_doc.
 Proof. split; [vm_compute; reflexivity|exact (build_spec ex_table ex_doc)]. Qed.
+
+(* ::before list items: <body style="counter-reset: list-item"> <p/> <p/> <p/> <div/> </body> with
+   p::before, div::before { display: list-item; content: "x" }, list-style-type decimal,
+   div::before { counter-reset: list-item 41 }: markers 1 2 3 42 (not 0 1 2 3: the
+   marker is generated after the pseudo-element's own counter updates), and a
+   plain ::after { content: counter(list-item) } of the div sees 42 (without the
+   reset on <body> every ::before would create its own instance in the frame of
+   its element: 1 1 1 42) *)
+Definition ex_li_before (reset : list cint) : option pseudo :=
+  Some (Pseudo (CP reset [] true [] true) (MkNormal (SidName s_decimal)) [CString [120]%N]).
+Definition ex_p : elem := Elem false (CP [] [] true [] false) MkNone (ex_li_before []) None [].
+Definition ex_doc2 : elem :=
+  Elem false (CP [CI s_list_item 0] [] true [] false) MkNone None None
+    [ex_p; ex_p; ex_p;
+     Elem false (CP [] [] true [] false) MkNone (ex_li_before [CI s_list_item 41])
+          (Some (Pseudo (CP [] [] true [] false) MkNone [CCounter s_list_item (SidName s_decimal)])) []].
+
+Example C19_ex_pseudo_list_item :
+  exists m1 m2 m3 m42,
+    RenderMarker ex_table (SidName s_decimal) 1 = Ok m1 /\ RenderMarker ex_table (SidName s_decimal) 2 = Ok m2 /\
+    RenderMarker ex_table (SidName s_decimal) 3 = Ok m3 /\ RenderMarker ex_table (SidName s_decimal) 42 = Ok m42 /\
+    build ex_table ex_doc2 =
+      Ok [OMarker m1; OBefore [120]; OMarker m2; OBefore [120]; OMarker m3; OBefore [120];
+          OMarker m42; OBefore [120]; OAfter [52;50]]%N.
+Proof. do 4 eexists. vm_compute. repeat split. Qed.
+
